@@ -477,7 +477,10 @@ class BasicVisitor(NodeVisitor):
 
     def visit_int_literal(self, node, visited_children):
         num_literal = node.full_text[node.start : node.end].replace(" ", "")
-        return BasicLiteral(int(num_literal))
+        # int() refuses digit strings of more than 4300 characters; ten
+        # significant digits are already beyond any array BASIC09 can hold.
+        num_literal = num_literal.lstrip("0") or "0"
+        return BasicLiteral(int(num_literal[:10]))
 
     def visit_int_hex_literal(self, node, visited_children):
         hex_literal = node.text[node.text.find("H") + 1 :].strip()
